@@ -8,7 +8,7 @@ RULE = ("(a) every operation sequence of length len over {defer_rcu(f,p) for 3 f
         "patterns (aligned, low bit set, the internal marker value, NULL), rcu_defer_barrier, rcu_defer_barrier_thread, unregister+register} with a "
         "queue of 8 slots (wrap-around and self-flush reached) is executed on the real urcu-defer-impl.h, the invocation log "
         "compared with the queued log after every barrier/unregister; (b) every schedule (preemption / TSO-delay / futex-fault "
-        "budget) of owner || reclaimer || reader || third-party barrier || second owner scenarios with exactly-once, order, "
+        "budget) of owner || reclaimer || reader || third-party barrier || second owner (also: registering while the last owner unregisters and the reclaimer is being stopped) scenarios with exactly-once, order, "
         "exact-argument, grace-period and termination oracles")
 ASSUMPTIONS = ["specification flavor (C01 as assumption) for the deep tier, real memb/qsbr shallower", "x86-TSO", "vrt futex model",
                "a function pointer equal to the marker value cannot exist; functions with odd addresses are exercised"]
@@ -34,6 +34,10 @@ def jobs(tier):
     J.append(Job(S, "late_reader", "2,0,0,0" if q else "3,0,0,0", p8, workers=8))
     J.append(Job(S, "late_reader", "1,1,0,0", p8, workers=8))
     J.append(Job(S, "late_reader", "1,0,0,0" if q else "2,0,0,0", dict(p8, third_party=1), workers=8))
+    J.append(Job(S, "rereg_race", "2,0,0,0" if q else "3,0,0,0", dict(p8, two_owners=1), workers=8))
+    J.append(Job(S, "rereg_race", "2,0,0,0" if q else "3,0,0,0", dict(p8, two_owners=1, pending=1), workers=8))
+    J.append(Job(S, "rereg_race", "1,1,0,0", dict(p8, two_owners=1), workers=8))
+    J.append(Job(S, "rereg_race", "1,0,1,0", dict(p8, two_owners=1), workers=8))
     J.append(Job(S, "two_owners", "1,0,0,0" if q else "2,0,0,0", dict(p8, two_owners=1), workers=8))
     J.append(Job(S, "two_owners", "1,0,0,0" if q else "2,0,0,0", dict(p8, two_owners=1, barrier_thread=1), workers=8))
     for b, env in (("df_memb", {"VRT_MEMBARRIER": 2}), ("df_qsbr", {})):
